@@ -671,6 +671,71 @@ def r05_13(run, model):
     run.anchor("group-threading calls examined", str(m))
 
 
+def r05_14(run, model):
+    run.rule("R05.14", "a bare identifier in pattern position is a constructor only if it names an enum variant: the set the lowering consults "
+                       "in lower_pat's identifier arm is filled from variant lists alone - a struct has no pattern without field syntax, so "
+                       "`let point = ..` / `(0, point) => point` stay binders whatever structs the file declares")
+    LOWER = "crates/ast/src/lower.rs"
+    f = model.fn("lower_pat", LOWER)
+    arm = None
+    for m_ in S.find(f.body, "Match"):
+        for a in m_["arms"]:
+            if re.search(r"Pattern::VarPat\b", S.norm_ws(run.facts.text(LOWER, a["pat"]["sp"]))):
+                arm = a
+        break
+    if arm is None:
+        raise AnalysisIncomplete("lower_pat: the arm for an identifier pattern was not found")
+    preds = []
+    for iff in S.find(arm["body"], "If"):
+        if any(st["segs"][-1] == "PConstr" for st in S.find(iff["then"], "Struct")):
+            preds += [c for c in S.walk(iff["cond"]) if c["k"] == "MethodCall" and S.is_path(c["recv"], "ctx")]
+    if not preds:
+        run.ob("R05.14", "lower_pat|an identifier pattern is classified by the variants of the file", True, site(LOWER, arm["sp"]),
+               "no constructor pattern is built from a bare identifier here (the resolver decides)")
+        return
+    for c in preds:
+        g = model.fn(c["method"], LOWER, impl="LowerCtx")
+        fields = {x.get("member") for x in S.walk(g.body) if x["k"] == "Field" and S.is_path(x["base"], "self")}
+        if len(fields) != 1:
+            raise AnalysisIncomplete(f"{c['method']}: reads {sorted(fields)}")
+        field = next(iter(fields))
+        # where is that field filled?  LowerCtx::new binds it from a collector; follow the collector's returned sets
+        new = model.fn("new", LOWER, impl="LowerCtx")
+        src = None
+        for l in S.find(new.body, "Local"):
+            if field in S.pat_bindings(l["pat"]) and l.get("init") is not None and l["init"]["k"] == "Call":
+                names = S.pat_bindings(l["pat"])
+                src = (S.callee_name(l["init"]), names.index(field), len(names))
+        if src is None:
+            raise AnalysisIncomplete(f"LowerCtx::new: the source of `{field}` was not found")
+        col = model.fn(src[0], LOWER)
+        # the local returned at that position
+        last = col.body["stmts"][-1]["expr"] if col.body["stmts"] and col.body["stmts"][-1]["k"] == "ExprStmt" else None
+        if last is None:
+            raise AnalysisIncomplete(f"{src[0]}: result expression not found")
+        if last["k"] == "Tuple":
+            var = last["elems"][src[1]]
+        elif src[2] == 1:
+            var = last
+        else:
+            raise AnalysisIncomplete(f"{src[0]}: result is not a tuple of sets")
+        if var["k"] != "Path":
+            raise AnalysisIncomplete(f"{src[0]}: result component is not a variable")
+        vn = var["segs"][0]
+        par = S.Parents(col.body)
+        ins = [x for x in S.walk(col.body) if x["k"] == "MethodCall" and x["method"] in ("insert", "extend") and S.is_path(x["recv"], vn)]
+        outside = []
+        for x in ins:
+            arms = [a for a in par.ancestors(x) if a["k"] == "Arm"]
+            top = arms[-1] if arms else None
+            if top is None or not re.search(r"Item::Enum\b", S.norm_ws(run.facts.text(LOWER, top["pat"]["sp"]))):
+                outside.append(x)
+        run.ob("R05.14", "lower_pat|an identifier pattern is classified by the variants of the file", bool(ins) and not outside, site(LOWER, c["sp"]),
+               f"ctx.{c['method']}() reads `{field}`, filled by {src[0]}: {len(ins)} insertion(s), {len(outside)} outside the enum arm",
+               witness="struct point { x: int32, y: int32 } .. let point = point { x: dx, y: 2 }; norm1(point): `Struct point patterns must use "
+                       "field syntax`; accepted once the struct is moved to another file of the package")
+
+
 def run(run, model):
     run.try_rule(r05_7, model)
     run.try_rule(r05_6, model)
@@ -680,6 +745,7 @@ def run(run, model):
     run.try_rule(r05_11, model)
     run.try_rule(r05_12, model)
     run.try_rule(r05_13, model)
+    run.try_rule(r05_14, model)
     run.try_rule(r05_5, model)
     run.try_rule(r05_1, model)
     run.try_rule(r05_2, model)
